@@ -59,6 +59,14 @@ Proof.
   - exists a. split; [rewrite get_put_other by assumption; exact Hg|]. split; [auto|apply same_id_refl].
 Qed.
 
+Lemma mono_upd_f s u f a0 : get s u = Some a0 -> a_st a0 <> Terminated -> (forall b, same_id b (f b)) -> mono s (upd_actor s u f).
+Proof.
+  intros Hu Hn Hf v a Hg. unfold upd_actor. rewrite Hu. destruct (Nat.eq_dec u v) as [->|Hne].
+  - exists (f a0). split; [eapply get_put_same; exact Hu|]. rewrite Hu in Hg. inversion Hg; subst.
+    split; [intros Ht; contradiction|apply Hf].
+  - exists a. split; [rewrite get_put_other by assumption; exact Hg|]. split; [auto|apply same_id_refl].
+Qed.
+
 Ltac kp := intros; split; [reflexivity|repeat split].
 
 Lemma keep_drop_child s u w : keep s (drop_child s u w).
@@ -240,6 +248,14 @@ Proof.
     + eapply keep_trans; [apply keep_set_registry|]. eapply keep_trans; [apply keep_notify_all|apply keep_deliver_sys].
 Qed.
 
+Lemma keep_start_instance s u self parent s' o p : start_instance roles s u self parent = (s', o, p) -> keep s s'.
+Proof.
+  unfold start_instance. destruct (handle roles s u TRD 0 self) as [[s1 o1] p1] eqn:E1.
+  destruct (handle roles s1 u TL 0 parent) as [[s2 o2] p2] eqn:E2. intros H; inversion H; subst.
+  eapply keep_trans; [eapply keep_handle; exact E1|]. eapply keep_trans; [eapply keep_handle; exact E2|].
+  destruct p2; [apply keep_refl|apply keep_upd_actor; kp].
+Qed.
+
 Lemma mono_try_restarted s u snd s' o p : try_restarted roles s u snd = (s', o, p) -> mono s s'.
 Proof.
   unfold try_restarted. destruct (get s u) as [a|] eqn:Ea; [|intros H; inversion H; subst; apply mono_refl].
@@ -255,13 +271,15 @@ Proof.
       destruct (provide s2 (a_tok a)) as [s3 inst] eqn:Ep.
       assert (K3 : keep s2 s3) by (apply keep_same_actors; unfold provide in Ep; inversion Ep; subst; reflexivity).
       destruct (keep_status _ _ _ _ (keep_trans _ _ _ K12 K3) Ea) as (a3 & Ha3 & Hs3).
-      inversion H; subst. eapply mono_trans; [apply keep_mono; eapply keep_trans; [exact K12|exact K3]|].
+      match type of H with context [start_instance ?r ?x ?y ?z ?w] => destruct (start_instance r x y z w) as [[s9 o9] p9] eqn:E9 end.
+      inversion H; subst.
+      eapply mono_trans; [apply keep_mono; eapply keep_trans; [exact K12|exact K3]|].
       apply mono_trans with (s2 := upd_actor s3 u (fun b => w_st Alive (w_inst inst b))).
       * intros v b Hg. unfold upd_actor. rewrite Ha3. destruct (Nat.eq_dec u v) as [->|Hne].
         -- eexists. split; [eapply get_put_same; exact Ha3|]. rewrite Ha3 in Hg. inversion Hg; subst.
            split; [intros Ht; congruence|repeat split].
         -- exists b. split; [rewrite get_put_other by assumption; exact Hg|]. split; [auto|apply same_id_refl].
-      * apply keep_mono. eapply keep_trans; [apply keep_deliver_sys|]. eapply keep_trans; [apply keep_deliver_sys|apply keep_deliver_sys].
+      * apply keep_mono. eapply keep_trans; [apply keep_deliver_sys|eapply keep_start_instance; exact E9].
 Qed.
 
 Lemma mono_apply_directive s u r d snd s' o p : apply_directive roles s u r d snd = (s', o, p) -> mono s s'.
